@@ -48,9 +48,16 @@ def run_demo(scratch, d, env):
         extra = open(os.path.join(d, "demo_args.txt")).read().strip()
     try:
         if os.path.exists(os.path.join(d, "demo.sh")):
+            # some drivers expect the test file to be in tests/ already
+            placed = None
+            if os.path.exists(os.path.join(d, "demo.rs")) and "cp " not in open(os.path.join(d, "demo.sh")).read():
+                placed = os.path.join(scratch, "tests", "demo.rs")
+                shutil.copy(os.path.join(d, "demo.rs"), placed)
             p = subprocess.run(["bash", "-c", f"sh _out/{idx}/demo.sh . > _out/demo.log 2>&1; echo $? > _out/demo.rc"], cwd=scratch, env=env)
             rc = int(open(os.path.join(scratch, "_out", "demo.rc")).read().strip() or 1)
             out = open(os.path.join(scratch, "_out", "demo.log")).read()
+            if placed and os.path.exists(placed):
+                os.remove(placed)
             return True, rc == 0, out[-600:]
         if os.path.exists(os.path.join(d, "demo.rs")):
             shutil.copy(os.path.join(d, "demo.rs"), os.path.join(scratch, "tests", "zz_demo.rs"))
